@@ -29,7 +29,7 @@ def alphabet(kind="local"):
             continue  # a lossy pickle and a wiped directory only mean something with a file store underneath
         ops.append(("has", k))
         ops.append(("fetch", k))
-    ops += [("store", "k2", "v2"), ("store", "k4", None), ("store", "k0", "v0")] + ([("store", "k6", "lossy"), ("wipe_reopen",)] if kind != "memory" else [])
+    ops += [("store", "k2", "v2"), ("store", "k4", None), ("store", "k0", "v0")] + ([("store", "k6", "lossy"), ("wipe_reopen",), ("ext_store", "k1", "v1")] if kind != "memory" else [])
     ops += [
             ("sync", "/p", "k0"), ("sync", "/p", "k2"), ("paths", "/p"), ("paths", "/q")]
     return ops
@@ -104,6 +104,11 @@ def apply(s, op):
         s.bare = _mk_store(s.kind, s.root, "bare", None)
         s.wrapped = _mk_store(s.kind, s.root, "wrap", s.cap)
         s.weak = []
+        return []
+    elif kind == "ext_store":
+        # another process (an uncached handle on the same directories) stores a blob that was absent so far
+        for tag in ("bare", "wrap"):
+            _mk_store(s.kind, s.root, tag, None).store_blob(H[op[1]], Obj(op[2]), None)
         return []
     elif kind == "store":
         f = lambda st: st.store_blob(H[op[1]], None if op[2] is None else (Lossy("l") if op[2] == "lossy" else Obj(op[2])), None)
